@@ -40,34 +40,44 @@ Definition opt_blocks_eqb (a b : option (list (Z * bytes))) : bool :=
   end.
 
 Inductive case :=
-(* fault-free history: all Write calls, the header first.  The sync marker is
-   random per file: it is read from the last 16 bytes of the header chunk. *)
+(* fault-free history: all Write calls, the header first, at whatever granularity
+   the implementation issues them.  The sync marker is random per file: it is
+   read from the stream, at the end of the header (whose length does not depend
+   on the marker's value). *)
 | KRun (schema_json codec_name : bytes) (c : comp) (size : Z) (ops : list enc_op) (chunks : list bytes)
-(* writer failing at Write index k (0 = the header write inside NewEncoderFor)
-   after taking [partial] bytes of that chunk: the bytes the writer holds and
-   whether the call that issued the Write returned an error.  [sync]: the
-   failing run's own marker, read from its accepted header. *)
+(* writer failing at Write index k (0 = the first Write call of all) after taking
+   [partial] bytes of that chunk: the bytes the writer holds and whether a call
+   returned an error.  [sync]: the failing run's own marker, read from its
+   accepted header.  [lens]: the lengths of the Write calls of the fault-free
+   run of the same history (the implementation's own granularity). *)
 | KFault (schema_json codec_name sync : bytes) (c : comp) (size : Z) (ops : list enc_op)
-         (k partial : nat) (accepted : bytes) (failed : bool).
+         (lens : list nat) (k partial : nat) (accepted : bytes) (failed : bool).
+
+Definition pair_eqb (a b : bytes * bool) : bool := bytes_eqb (fst a) (fst b) && Bool.eqb (snd a) (snd b).
 
 Definition check (c : case) : bool :=
   match c with
   | KRun sj cn cp size ops chunks =>
-    match chunks with
-    | [] => false
-    | hdr :: rest =>
-      let sync := lastn 16 hdr in
-      let model := snd (enc_run (comp_fn cp) sync size enc_init ops) in
-      bytes_eqb hdr (header_bytes sj cn sync) &&
-      list_eqb bytes_eqb model rest &&
-      (* the theorems' reading of the same bytes: they parse back to the groups of the specification *)
-      opt_blocks_eqb (parse_blocks sync (concat rest))
-                     (Some (map (fun g : list bytes => (Z.of_nat (length g), comp_fn cp (concat g)))
-                                (fst (blocks_spec size [] ops))))
-    end
-  | KFault sj cn sync cp size ops k partial accepted failed =>
-    let r := file_run_fault (comp_fn cp) sj cn sync size ops k partial in
-    bytes_eqb (fst r) accepted && Bool.eqb (snd r) failed
+    let all := concat chunks in
+    let hl := length (header_bytes sj cn (repeat 0 16)) in
+    let sync := firstn 16 (skipn (hl - 16) all) in
+    let model := file_chunks (comp_fn cp) sj cn sync size ops in
+    (* the bytes written: header, then the blocks of the model's writer *)
+    bytes_eqb (concat model) all &&
+    (* the theorems' reading of the same bytes: they parse back to the groups of the specification *)
+    opt_blocks_eqb (parse_blocks sync (skipn hl all))
+                   (Some (map (fun g : list bytes => (Z.of_nat (length g), comp_fn cp (concat g)))
+                              (fst (blocks_spec size [] ops))))
+  | KFault sj cn sync cp size ops lens k partial accepted failed =>
+    let model := file_chunks (comp_fn cp) sj cn sync size ops in
+    let stream := concat model in
+    Nat.eqb (list_sum lens) (length stream) &&
+    (* the failing writer over the implementation's own Write calls (fault_any_granularity) *)
+    pair_eqb (fault_of_chunks (rechunk lens stream) k partial) (accepted, failed) &&
+    (* and, where these are the model's Write calls, the stateful fault run itself *)
+    (if list_eqb Nat.eqb lens (map (@length Z) model)
+     then pair_eqb (file_run_fault (comp_fn cp) sj cn sync size ops k partial) (accepted, failed)
+     else true)
   end.
 
 Definition bad_ids := bad_ids_gen check.
